@@ -1101,3 +1101,34 @@ Proof.
   - rewrite (proj1 (expr_meaning e) _ E), path_set_eqb_refl. intros [].
   - rewrite (proj2 (expr_meaning e) E). intros [<-|[]]. reflexivity.
 Qed.
+
+Lemma graphs_eqb_sym g1 : forall g2, list_eqb graph_eqb g1 g2 = list_eqb graph_eqb g2 g1.
+Proof.
+  induction g1 as [|x g1 IH]; intros [|y g2]; cbn; try reflexivity. now rewrite graph_eqb_sym, IH.
+Qed.
+
+(* clause 12 of the pair law on the model: results equal by ObserverGraph.__eq__ denote the same set of paths *)
+Lemma equal_graphs_same_path_set g1 g2 : list_eqb graph_eqb g1 g2 = true ->
+  path_set_eqb (flat_map graph_paths g1) (flat_map graph_paths g2) = true.
+Proof.
+  intros H. unfold path_set_eqb. rewrite (graphs_eqb_paths _ _ H). rewrite graphs_eqb_sym in H.
+  now rewrite (graphs_eqb_paths _ _ H).
+Qed.
+
+Lemma model_pair_law same s1 s2 c :
+  let o1 := compile_str s1 in let o2 := compile_str s2 in
+  In c (law_pair same o1 o2 (outcome_same o1 o2) (outcome_same o1 o2)) -> same = true /\ (c = 7%Z \/ c = 8%Z \/ c = 9%Z \/ c = 10%Z).
+Proof.
+  cbn zeta. unfold law_pair. intros H. apply in_app_or in H. destruct H as [H|H].
+  - destruct same; [|destruct H]. split; [reflexivity|]. destruct (same_class _ _); cbn in H; [destruct H|].
+    destruct H as [<-|[]]. now left.
+  - destruct (compile_str s1) as [| |g1|] eqn:E1; try destruct H;
+      destruct (compile_str s2) as [| |g2|] eqn:E2; try destruct H.
+    apply in_app_or in H. destruct H as [H|H].
+    + destruct same; [|destruct H]. split; [reflexivity|]. cbn [outcome_same] in H.
+      destruct (list_eqb graph_eqb g1 g2); cbn in H; [destruct H|].
+      destruct H as [<-|[<-|[<-|[]]]]; auto.
+    + cbn [outcome_same] in H. destruct (list_eqb graph_eqb g1 g2) eqn:E.
+      * rewrite (equal_graphs_same_path_set _ _ E) in H. cbn in H. destruct H.
+      * cbn in H. destruct H.
+Qed.
